@@ -77,7 +77,36 @@ def kinds_of(errors):
     return sorted(ks, key=lambda k: order.index(k) if k in order else 99)
 
 
+BUDGET_S = 10.0
+
+
+class _OverBudget(BaseException):
+    pass
+
+
+def _alarm(signum, frame):
+    raise _OverBudget()
+
+
 def impl(case):
+    """verify_code under a time budget ('it never hangs'): the modelled passes look at every statement and every edge
+    a bounded number of times; the largest generated method has 80 statements"""
+    import signal
+    import threading
+    if threading.current_thread() is not threading.main_thread():
+        return impl_unbounded(case)
+    old = signal.signal(signal.SIGALRM, _alarm)
+    signal.setitimer(signal.ITIMER_REAL, BUDGET_S)
+    try:
+        return impl_unbounded(case)
+    except _OverBudget:
+        return {"res": "timeout"}
+    finally:
+        signal.setitimer(signal.ITIMER_REAL, 0)
+        signal.signal(signal.SIGALRM, old)
+
+
+def impl_unbounded(case):
     from dagrt.codegen.analysis import CodeGenerationError, verify_code
     code = build(case)
     try:
@@ -145,6 +174,9 @@ def well_formed(case):
 
 def oracle(case, out):
     why = well_formed(case)
+    if out.get("res") == "timeout":
+        n = sum(len(ph["stmts"]) for ph in case["phases"])
+        return {"what": f"verify_code did not finish within {BUDGET_S:.0f} s on a method of {n} statements", "sig": "hangs"}
     if out.get("res") == "other":
         return {"what": f"verify_code raised {out.get('exc')} instead of CodeGenerationError (ill-formed because: {why})", "sig": "other-exc"}
     if out.get("res") == "accept":
@@ -228,7 +260,33 @@ def rand_case(rng):
     return {"op": "C10.verify", "tag": "random", "phases": phases}
 
 
+def flag_cases():
+    """every arrangement of the writers of two condition flags (one written twice, one once or twice) among plain
+    statements, in every storage order: a duplicate writer must be found wherever it is stored"""
+    for writers in (["<cond>c", "<cond>c", "<cond>d"], ["<cond>c", "<cond>d", "<cond>c", "<cond>d"],
+                    ["<cond>c", "<cond>d", "<cond>e"], ["<cond>c", "<cond>d", "v", "<cond>c"]):
+        for perm in sorted(set(itertools.permutations(writers))):
+            stmts = [{"id": f"w{i}", "deps": [f"w{i - 1}"] if i else [], "cw": w} for i, w in enumerate(perm)]
+            yield {"op": "C10.verify", "tag": "flags", "phases": [{"name": "A", "stmts": stmts}]}
+
+
+def ladder(layers, back_edge):
+    """2 statements per layer, each depending on BOTH statements of the next layer: 2**layers paths, 4*layers edges"""
+    stmts = []
+    for k in range(layers):
+        for side in "ab":
+            deps = [f"L{k + 1}a", f"L{k + 1}b"] if k + 1 < layers else []
+            stmts.append({"id": f"L{k}{side}", "deps": deps})
+    if back_edge:
+        stmts[-1]["deps"] = ["L0a"]
+    return {"op": "C10.verify", "tag": "ladder", "phases": [{"name": "A", "stmts": stmts}]}
+
+
 def cases(rng, tier):
+    yield from flag_cases()
+    for layers in (8, 40):
+        yield ladder(layers, False)
+        yield ladder(layers, True)
     for n in (1, 2):
         for c in graph_cases(n, ["zz", "b0"], f"exh{n}"):
             yield c
@@ -252,6 +310,8 @@ def exhaustive(tier):
 
 
 def shrink(case, still_fails):
+    if case.get("tag") == "ladder":
+        return case          # every shrink candidate of a run-away case costs the whole time budget
     cur = case
     changed = True
     while changed:
